@@ -99,7 +99,7 @@ omit hg in
 
 theorem pfData_acc (sd : Stream → Nat → Nat → Stream × List String × Bool)
     (hsd : ∀ a len m, ∃ b w f, sd a len m = (b, w, f) ∧ Quiet a b) (k len : Nat) (F : SFrame) (rest : List SFrame)
-    (hq : (s.stream k).pendingSend = F :: rest) (hw : P.write)
+    (hq : (s.stream k).pendingSend = F :: rest) (hw : P.pop)
     (h : Tr P s0 s) : Tr P s0 (pfData sd s k len rest) := by
   unfold pfData
   fid_fold
@@ -119,7 +119,7 @@ omit hg in
   split at h <;> simp_all
 
 theorem popFrameC_acc (sd : Stream → Nat → Nat → Stream × List String × Bool)
-    (hsd : ∀ a len m, ∃ b w f, sd a len m = (b, w, f) ∧ Quiet a b) (n m : Nat) (hw : P.write) (hc : CutAll P) (h : Tr P s0 s) :
+    (hsd : ∀ a len m, ∃ b w f, sd a len m = (b, w, f) ∧ Quiet a b) (n m : Nat) (hw : P.pop) (hc : CutAll P) (h : Tr P s0 s) :
     Tr P s0 (popFrameC sd n s m).1 := by
   induction n generalizing s with
   | zero => rw [popFrameC_zero]; exact h
@@ -158,16 +158,16 @@ theorem popFrameC_acc (sd : Stream → Nat → Nat → Stream × List String × 
         clear hd
         fid_grind
 
-@[grind ←] theorem popFrame_acc (n m : Nat) (hw : P.write) (hc : CutAll P) (h : Tr P s0 s) :
+@[grind ←] theorem popFrame_acc (n m : Nat) (hw : P.pop) (hc : CutAll P) (h : Tr P s0 s) :
     Tr P s0 (Streams.popFrame n s m).1 := by
   rw [popFrameC.eq]; exact popFrameC_acc hg _ sendData_quiet' n m hw hc h
 
-@[grind ←] theorem prioBufferPendingLoop_acc (n : Nat) (w : Writer) (hw : P.write) (hc : CutAll P) (h : Tr P s0 s) :
+@[grind ←] theorem prioBufferPendingLoop_acc (n : Nat) (w : Writer) (hw : P.write) (hp : P.pop) (hc : CutAll P) (h : Tr P s0 s) :
     Tr P s0 (Streams.prioBufferPendingLoop n s w).1 := by
   induction n generalizing s w with
   | zero => unfold Streams.prioBufferPendingLoop; fid_grind
   | succ n ih => unfold Streams.prioBufferPendingLoop; fid_grind
-@[grind ←] theorem prioBufferPending_acc (n : Nat) (w : Writer) (hw : P.write) (hc : CutAll P) (h : Tr P s0 s) :
+@[grind ←] theorem prioBufferPending_acc (n : Nat) (w : Writer) (hw : P.write) (hp : P.pop) (hc : CutAll P) (h : Tr P s0 s) :
     Tr P s0 (Streams.prioBufferPending n s w).1 := by
   unfold Streams.prioBufferPending; fid_grind
 
